@@ -651,6 +651,10 @@ func c09Rebuild(c *Ctx, a *sketchAnchors) {
 				if f := formOf(e.Call); f != "" {
 					did[f] = true
 				}
+				// delegation to a sibling MergeWithProto with the same message (itself checked by this rule) does both
+				if isMethodCall(e.Call, "MergeWithProto") && len(e.Call.Args) == 2 && e.Call.Args[1].isParam(1) {
+					did["BinCounts"], did["ContiguousBinCounts"] = true, true
+				}
 			}
 			for _, fld := range []string{"BinCounts", "ContiguousBinCounts"} {
 				if !did[fld] && !emptyEvidence(p, fld) {
